@@ -11,13 +11,17 @@ COLS = {
     "region": {"name": "str", "size": "int"},
     "comment": {"text": "str", "score": "int"},
     "tag": {"label": "str", "weight": "int"},
+    "profile": {"bio": "str", "level": "int"},
 }
 # entity -> to-one relationships (name -> target entity)
 TO_ONE = {
     # `home` is one relationship NAME on two entities leading to two different tables;
     # Post.home is NOT NULL (like Country.region), Author.home is nullable
     "post": {"author": "author", "home": "country"},
-    "author": {"country": "country", "home": "region"},
+    # Author.profile is a one-to-one seen from the side that does NOT hold the key
+    # (profile.author_id): a to-one navigation whose related row may simply not exist
+    "author": {"country": "country", "home": "region", "profile": "profile"},
+    "profile": {"author": "author"},
     "comment": {"post": "post", "author": "author"},
     "country": {"region": "region"},      # the only NOT NULL foreign key of the schema
     "tag": {}, "region": {},
@@ -30,7 +34,10 @@ TO_MANY = {
     "tag": {"posts": "post"},
     "comment": {},
     "region": {"countries": "country"},
+    "profile": {},
 }
+# (entity, relationship) -> (target entity, key column ON THE TARGET that points back)
+REVERSE_ONE = {("author", "profile"): ("profile", "author_id")}
 STRS = ["x", "y", "zed", "o'k", "a%"]
 INTS = [0, 5]
 INT_LITS = ["-1", "0", "2", "5", "7"]
@@ -64,6 +71,10 @@ def canonical_instance():
         {"id": 4, "name": "zed", "age": 0, "country_id": 3, "home_id": 1},
         {"id": 5, "name": "o'k", "age": 5, "country_id": 2, "home_id": 2},   # author without posts
     ]
+    inst["profile"] = [{"id": 1, "bio": "x", "level": 0, "author_id": 1},
+                       {"id": 2, "bio": "zed", "level": 5, "author_id": 3},
+                       {"id": 3, "bio": "a%", "level": 5, "author_id": 5},
+                       {"id": 4, "bio": "y", "level": 0, "author_id": None}]
     pid = cid = 0
     tag_by_weight = {0: [1, 4], 5: [2, 3]}
     for i, pat in enumerate(patterns):
@@ -102,6 +113,11 @@ def random_instance(rng):
         inst["author"].append({"id": i + 1, "name": rng.choice(STRS), "age": rng.choice(INTS),
                                "country_id": rng.choice([None] + list(range(1, nc + 1))),
                                "home_id": rng.choice([None] + list(range(1, nr + 1)))})
+    inst["profile"] = []
+    for i in range(na):
+        if rng.random() < 0.5:
+            inst["profile"].append({"id": len(inst["profile"]) + 1, "bio": rng.choice(STRS),
+                                    "level": rng.choice(INTS), "author_id": i + 1})
     for i in range(nt):
         inst["tag"].append({"id": i + 1, "label": rng.choice(STRS), "weight": rng.choice(INTS)})
     cid = 0
@@ -144,10 +160,14 @@ def dangling_instance(rng):
 class Graph:
     def __init__(self, inst):
         self.inst = inst
-        self.by_id = {e: {r["id"]: r for r in inst[e]} for e in COLS}
+        self.by_id = {e: {r["id"]: r for r in inst.get(e, [])} for e in COLS}
 
     def to_one(self, entity, row, rel):
         target = TO_ONE[entity][rel]
+        if (entity, rel) in REVERSE_ONE:
+            _, back = REVERSE_ONE[(entity, rel)]
+            hits = [r for r in self.inst.get(target, []) if r.get(back) == row["id"]]
+            return target, (hits[0] if hits else None)
         fk = row.get(rel + "_id")
         return target, (self.by_id[target].get(fk) if fk is not None else None)
 
@@ -401,15 +421,24 @@ def to_one_pred(rng, entity, opts):
     """Predicate on a to-one path of depth 1..3 from `entity`."""
     prefix, e = None, entity
     steps = 0
+    seen = {entity}
     while TO_ONE[e] and steps < 3 and (steps == 0 or rng.random() < 0.5):
-        rel = rng.choice(sorted(TO_ONE[e]))
+        # never navigate back to an entity already on the path (author/profile/author):
+        # that is the "same entity twice" mechanism of the listed finding, not a new input
+        rels = [r for r in sorted(TO_ONE[e]) if TO_ONE[e][r] not in seen]
+        if not rels:
+            break
+        rel = rng.choice(rels)
         prefix = T.ident(rel) if prefix is None else ("attr", prefix, rel)
         e = TO_ONE[e][rel]
+        seen.add(e)
         steps += 1
     if prefix is None:
         return scalar_pred(rng, entity, None)
     r = rng.random()
-    if r < 0.15:
+    last_is_reverse = any(prefix[0] == "attr" and prefix[2] == rel or prefix == T.ident(rel)
+                          for (_, rel) in REVERSE_ONE)
+    if r < 0.15 and not last_is_reverse:
         return ("cmp", rng.choice(["eq", "ne"]), prefix, T.lit("null", "null"))   # relationship null test
     if r < 0.30:
         col = rng.choice(sorted(COLS[e]))
